@@ -137,7 +137,29 @@ func runC18(t *rapid.T) {
 		}
 	}
 	rateCount := map[int]int{}
-	lastReset := time.Duration(0)
+	// The rate limiter empties its counters when its ticker fires and then re-arms the ticker one interval after that
+	// instant (ratelimit.go resets the ticker in the loop), so its windows are: first tick one interval after the start;
+	// every further tick one interval after the previous one was handled - which is later than planned when the clock
+	// jumped. The model follows exactly that; a message within 30 ms of a tick may be counted on either side of it.
+	nextTick := interval
+	lastTick := time.Duration(-1 << 40)
+	catchUp := func(now time.Duration, jumped bool) {
+		for nextTick <= now {
+			handled := nextTick
+			if jumped {
+				handled, jumped = now, false
+			}
+			for kk := range rateCount {
+				rateCount[kk] = 0
+			}
+			lastTick = handled
+			nextTick = handled + interval
+		}
+	}
+	nearTick := func(now time.Duration) bool {
+		d1, d2 := now-lastTick, nextTick-now
+		return (d1 >= 0 && d1 < 30*time.Millisecond) || (d2 >= 0 && d2 < 30*time.Millisecond)
+	}
 	uncertain := map[string]bool{}
 	modelPenalty := func(ip string, amount int, now time.Duration) {
 		if at, banned := md.bannedAt[ip]; banned && now >= at+expiry-time.Second {
@@ -224,14 +246,12 @@ func runC18(t *rapid.T) {
 						continue
 					}
 				}
-				if now-lastReset >= interval {
-					// counters were reset at least once since the last burst
-					for kk := range rateCount {
-						rateCount[kk] = 0
-					}
-					lastReset = now - (now % interval)
-				}
 				for j := 0; j < e.N; j++ {
+					catchUp(simrt.C.Elapsed(), false)
+					if nearTick(simrt.C.Elapsed()) {
+						uncertain[ip] = true
+						simkit.Probe("c18_message_at_a_counter_reset_no_score_verdict")
+					}
 					req := &p2p.Request{ID: fmt.Sprintf("t%d", j), Procedure: "echo", Data: []byte{byte(j)}}
 					send(pr, req.Encode())
 					simtime.Sleep(5 * time.Millisecond)
@@ -249,6 +269,7 @@ func runC18(t *rapid.T) {
 				if e.Secs > 200 {
 					// a clock jump (suspend/resume, NTP step): the periodic sweeps in between do not happen one by one
 					simrt.C.Jump(time.Duration(e.Secs) * time.Second)
+					catchUp(simrt.C.Elapsed(), true)
 					simkit.Fault("clock_jump")
 					simtime.Sleep(time.Second)
 				} else {
